@@ -19,9 +19,10 @@ CONSTANTS
   HbFilterDirect = TRUE
   CutAtGE = TRUE
   SendsGraft = FALSE
-  JoinFilterDirect = FALSE
+  BubbleToD = TRUE
+  JoinFilterDirect = TRUE
   GraftNeedsStream = FALSE
-  AllowDirectInFanout = FALSE
+  AllowDirectInFanout = TRUE
   AllowHalf = FALSE
 PROPERTY P_C07_Signalling
 VIEW View
